@@ -308,6 +308,19 @@ def special_stream(pool):
     out.append(([{"kind": "zipraw", "name": "dup.zip", "blob": zi,
                   "entries": [["a.info", n["info_a2"], "info"], ["obj/file.gcno", n["llvm_gcno_file"], "gcno"], ["obj/file.gcda", n["llvm_gcda_file_branch"], "gcda"]]}],
                 False, False, False, ("zipdup", 0)))
+    # byte-identical tracefile / report under the same relative name in two archives (zip+zip, dir+dir, zip+dir): used twice
+    for k1, k2 in (("zip", "zip"), ("dir", "dir"), ("zip", "dir"), ("dir", "zip")):
+        a1 = {"kind": k1, "name": "one.zip" if k1 == "zip" else "one", "entries": [["cov/a.info", n["info_a"], "info"], ["cov/r.xml", n["xml_1"], "xml"]]}
+        a2 = {"kind": k2, "name": "two.zip" if k2 == "zip" else "two", "entries": [["cov/r.xml", n["xml_1"], "xml"], ["cov/a.info", n["info_a"], "info"]]}
+        out.append(([a1, a2], False, False, False, ("same-name-same-bytes", 0)))
+        out.append(([a2, a1], True, True, True, ("same-name-same-bytes", 1)))
+    # dot-named directories and files: a directory and a zip with the same members give the same items
+    dots = [["lib/.libs/d.info", n["info_dot"], "info"], [".cov.info", n["info_dotfile"], "info"], [".rep/.h.xml", n["xml_2"], "xml"],
+            [".objs/fb2.gcno", n["llvm_gcno_file_branch"], "gcno"], [".objs/fb2.gcda", n["llvm_gcda_file_branch"], "gcda"], ["src/.hidden/deep/o.gcno", n["llvm_gcno_reader"], "gcno"]]
+    for ll in (False, True):
+        out.append(([{"kind": "dir", "name": "tree", "entries": dots}], ll, False, False, ("dots", ll)))
+        out.append(([{"kind": "zip", "name": "tree.zip", "entries": dots}], ll, False, False, ("dots", ll)))
+        out.append(([{"kind": "dir", "name": ".dotroot", "entries": dots, "wrap": True}], ll, False, True, ("dots", ll)))
     # a gcda archive alone must fail; gcno alone with --filter covered yields nothing but does not fail
     out.append(([{"kind": "zip", "name": "g.zip", "entries": [["m.gcda", n["gcc_gcda_main"], "gcda"]]}], False, False, False, ("gcda-only", 0)))
     out.append(([{"kind": "zip", "name": "g.zip", "entries": [["m.gcno", n["gcc_gcno_main"], "gcno"]]}], False, True, False, ("gcno-only-covered", 0)))
@@ -338,6 +351,8 @@ def cli_stream(chk, pool, n, dist):
     base = [("info", "a.info", names["info_a"]), ("info", "logs/b.info", names["info_b"]), ("info", "a.info", names["info_a2"]),
             ("xml", "rep/one.xml", names["xml_1"]), ("xml", "two.xml", names["xml_2"]), ("xml", "short.xml", names["short_jacoco"]),
             ("xml", "rep/straddle.xml", names["straddle_jacoco"]), ("decoy", "late.xml", names["decoy_xml_late"]),
+            ("info", "same/s.info", names["info_c"]), ("info", "same/s.info", names["info_c"]),
+            ("info", "lib/.libs/d.info", names["info_dot"]), ("info", ".cov.info", names["info_dotfile"]),
             ("decoy", "decoy.info", names["decoy_info"]), ("decoy", "build.xml", names["decoy_xml"]), ("decoy", "notes.txt", names["txt"]),
             ("gcno", "obj/file.gcno", names["llvm_gcno_file"]), ("gcda", "obj/file.gcda", names["llvm_gcda_file"]), ("gcda", "obj/file.gcda", names["llvm_gcda_file"]),
             ("gcno", "file_branch.gcno", names["llvm_gcno_file_branch"]), ("gcda", "file_branch.gcda", names["llvm_gcda_file_branch"]),
@@ -377,6 +392,10 @@ def cli_stream(chk, pool, n, dist):
                         chk.violation({"kind": "oracle", "engine": "cli", "report": sorted(r), "clause": "the 204-byte JaCoCo report and the one with a character across byte 256 are used"}, tag="cli")
                     if "DA:1,3" not in r.get("src/a.c", []):
                         chk.violation({"kind": "oracle", "engine": "cli", "report": r, "clause": "both a.info files are used exactly once (line 1 of src/a.c: 1+2)"}, tag="cli")
+                    if "DA:1,10" not in r.get("src/c.c", []):
+                        chk.violation({"kind": "oracle", "engine": "cli", "args": reps[0][0], "report": r, "clause": "same/s.info is given in two archives (same name, same bytes): both occurrences are used (line 1 of src/c.c: 5+5)"}, tag="cli")
+                    if "src/dot.c" not in r or "src/dotfile.c" not in r:
+                        chk.violation({"kind": "oracle", "engine": "cli", "args": reps[0][0], "report": sorted(r), "clause": "lib/.libs/d.info and .cov.info are used however they are packaged"}, tag="cli")
                     chk.nontrivial(["cli", sorted(r)])
     # no usable input => non-zero exit, whatever the packaging
     nothing = [a for a in base if a[0] in ("decoy", "gcda")]
@@ -403,7 +422,7 @@ def run(chk):
     dist["layout_groups"] = len(groups)
     cli_stream(chk, pool, 2 if chk.tier == "quick" else 10, dist)
     chk.extra["distribution"] = dist
-    chk.cov["rule"] = ("a fixed pool of artifacts (3 lcov files incl. two with the same name, 4 JaCoCo reports (204, 256, 300 bytes and one with a two-byte character across byte 256), 10 decoys incl. a DTD marker after byte 256, 3 LLVM-format and 2 GCC-format "
+    chk.cov["rule"] = ("a fixed pool of artifacts (lcov files incl. two with the same name and different bytes, one shipped twice byte-identically under the same relative name, members under dot-named directories and with dot-prefixed names, 4 JaCoCo reports (204, 256, 300 bytes and one with a two-byte character across byte 256), 10 decoys incl. a DTD marker after byte 256, 3 LLVM-format and 2 GCC-format "
                        "gcno with 0-2 gcda each, an orphan gcda, linked-files-map.json, optional profraw files; random subsets incl. nothing usable) distributed at random over "
                        "1-5 directories / zip archives / plain file arguments with random nesting, nested-subdirectory arguments, relative and absolute argument spellings, "
                        "each packaging in two argument orders, --llvm on/off x --filter covered on/off; grcov::producer (unbounded channel, items and extracted files read back) "
